@@ -362,21 +362,17 @@ func fpCorrupt(exe, dir string, rnd *rand.Rand) []map[string]any {
 		return nil
 	}
 	benignStamp := func(b []byte) bool {
-		var v starlark.Value
-		var err error
+		same := false
 		func() {
-			defer func() {
-				if recover() != nil {
-					err = fmt.Errorf("panic")
-				}
-			}()
-			v, err = pickle.NewDecoder(bytes.NewReader(b), pickle.UnpicklerFunc(envUnpickler)).Decode()
+			defer func() { recover() }() // an ill-formed decoded value may not even be comparable
+			v, err := pickle.NewDecoder(bytes.NewReader(b), pickle.UnpicklerFunc(envUnpickler)).Decode()
+			if err != nil || v == nil {
+				return
+			}
+			eq, err := starlark.Equal(v, origEnv)
+			same = err == nil && eq
 		}()
-		if err != nil || v == nil {
-			return false
-		}
-		eq, err := starlark.Equal(v, origEnv)
-		return err == nil && eq
+		return same
 	}
 	type corruption struct {
 		kind   string
